@@ -76,11 +76,12 @@ def ob_conservation(cx):
 
 
 def ob_plain(cx):
-    """arguments without syntax characters, joined by single spaces, split back unchanged."""
+    """unquoted arguments without quote characters and whitespace, joined by single spaces, split back unchanged;
+    backslashes that do not precede a quote are literal (the documented Windows-friendly rule), wherever they stand."""
     C = cx.mod(CM)
     sq = bool(cx.choose("single_quotes_allowed", 0, 1))
     n = cx.choose("nargs", 0, cx.p("nargs"))
-    args = [cx.str("arg%d" % i, cx.choose("len%d" % i, 1, cx.p("larg")), "ab.-/") for i in range(n)]
+    args = [cx.str("arg%d" % i, cx.choose("len%d" % i, 1, cx.p("larg")), "ab.-/\\") for i in range(n)]
     line = ""
     for i, a in enumerate(args):
         line = line + (" " if i else "") + a
